@@ -430,9 +430,19 @@ func init() {
 					s.c.VerifCleanExpired()
 					cache.VerifYield = nil
 					return withSnap("cleaned")
-				case "evict":
+				case "evict": // limit [mid]: mid = operations of other goroutines in the window between the eviction's scan and its removals
 					lim, _ := strconv.ParseInt(f[2], 10, 64)
+					if len(f) > 3 && f[3] != "-" {
+						o.Count("evict:window-ops")
+						cache.VerifYield = func(p string) {
+							if p == "janitor.evict.afterScan" {
+								cache.VerifYield = nil // the window operations run their own (un-windowed) evictions
+								s.doMid(f[3])
+							}
+						}
+					}
 					s.c.VerifEvict(lim)
+					cache.VerifYield = nil
 					return withSnap("evicted")
 				case "ensure":
 					s.c.VerifEnsureSize()
@@ -454,7 +464,8 @@ func init() {
 					for s.c.VerifSnapshot().Limit != n && time.Now().Before(deadline) {
 						time.Sleep(50 * time.Microsecond)
 					}
-					s.t0 = s.t0.Add(time.Since(deadline.Add(-2 * time.Second))) // waiting for the async listener is not trace time
+					// (the time spent waiting for the asynchronous listener is real time in which the entries age: it counts
+					// as trace time, and a wait long enough to matter marks the trace "slow" - not judged - like any other stall)
 					if s.c.VerifSnapshot().Limit != n {
 						return withSnap("limit-not-followed")
 					}
@@ -574,7 +585,23 @@ func genCacheTrace(c runCfg, o *Out, emit func(...string)) {
 				}
 				emit("ct", "clean", mid)
 			case x < 92:
-				emit("ct", "evict", itoa([]int{100, 250, 400, 1000}[r.Intn(4)]))
+				lim := []int{100, 250, 400, 1000}[r.Intn(4)]
+				if r.Chance(40) {
+					// another goroutine stores (possibly evicting on its own) or deletes between this eviction's scan and its removals
+					ms := []string{}
+					for j := 0; j < 1+r.Intn(2); j++ {
+						mk := r.Intn(nkeys)
+						if r.Chance(70) {
+							ver++
+							ms = append(ms, fmt.Sprintf("store:%d:%d:%d:%d", mk, ver, sizes[1+r.Intn(len(sizes)-1)], ttls[r.Intn(len(ttls))]))
+						} else {
+							ms = append(ms, fmt.Sprintf("delete:%d", mk))
+						}
+					}
+					emit("ct", "evict", itoa(lim), strings.Join(ms, ";"))
+				} else {
+					emit("ct", "evict", itoa(lim))
+				}
 			case x < 95:
 				emit("ct", "ensure")
 			case x < 97:
